@@ -538,6 +538,7 @@ class Combiner(Node):
                     for edge in self.out_edges:
                         if edge.can_put():
                             out_edge_index_to_put = edge
+                            self.stats["out_edge_selection"].append(self.out_edges.index(edge))  # record the chosen edge
                             break
                     
                     if out_edge_index_to_put is not None:
